@@ -1139,6 +1139,8 @@ func (v *objectCallPacket) UnmarshalBinary(data []byte) (err error) {
 	}
 	p = p[v.CommandObject.Size():]
 
+	// The args is optional; without it, drop the args of a previous message.
+	v.Args = nil
 	if len(p) == 0 {
 		return
 	}
@@ -1349,6 +1351,8 @@ func (v *CallPacket) UnmarshalBinary(data []byte) (err error) {
 	}
 	p = p[v.variantCallPacket.Size():]
 
+	// The args is optional; without it, drop the args of a previous message.
+	v.Args = nil
 	if len(p) > 0 {
 		if v.Args, err = amf0.Discovery(p); err != nil {
 			return oe.WithMessage(err, "discovery args")
@@ -1812,6 +1816,8 @@ func (v *UserControl) UnmarshalBinary(data []byte) (err error) {
 
 	if v.EventType == EventTypeSetBufferLength {
 		v.ExtraData = int32(binary.BigEndian.Uint32(data[6:]))
+	} else {
+		v.ExtraData = 0
 	}
 
 	return
